@@ -12,19 +12,26 @@ TECHNIQUE = ('generated program-unit projects (modules, derived types, imports, 
              'scope ownership + snapshots (fgen, structural dump, symbol tables, resolved types) of every *other* copy')
 RULE = ('case = project (2-3 generated Fortran files, enrichment mode plain|defs|enrich, target = source file | module | '
         'module procedure | free routine | member procedure) + history of 4-7 ops resolved against the evolving state: '
-        'clone(copy[, name=]) and edits on any copy (rename variable, retype via symbol_attrs / variables setter / symbol.type, '
-        'add / remove declaration, Transformer and SubstituteExpressions on body/spec (inplace or not), node._update, Section.append/prepend, '
-        'rename unit, enrich, symbol-table update/pop/clear, TypeDef and Associate edits, import edits), on the unit or a contained unit. '
-        'After clone: fgen equal, no symbol of the clone (IR or symbol-table attributes shape/kind/initial/length) scoped in a scope owned '
-        'by another copy, no scoped symbol lost its scope, resolved types equal; after every op: snapshot of every other copy unchanged. '
+        'clone(copy[, name=]) (<= 3 copies, clone-of-clone, clone of an edited copy) and edits on any copy: rename variable '
+        '(rename_variables), retype via symbol_attrs / variables setter / symbol.type, add / remove declaration, Transformer and '
+        'SubstituteExpressions on body/spec (inplace or rebuild), node._update, Section.append/prepend, docstring edits, rename unit, '
+        'enrich, symbol-table update/setdefault/pop/del/clear, TypeDef and Associate edits, import removal/retyping - on the unit or a '
+        'contained unit. After clone: fgen equal; no symbol of the clone (IR, and shape/kind/initial/length stored in its symbol tables) '
+        'scoped in a scope owned by another copy and no symbol of the source captured by the clone (identity of Scope objects); for '
+        'unedited sources no scoped symbol lost its scope and resolved types are equal. After every op: snapshot (fgen, structural '
+        'dump, symbol tables, scope tokens, resolved types) of every other copy unchanged. '
         'non-trivial = target owns >= 2 scopes (contained procedure / TypeDef / ASSOCIATE) and >= 1 edit changed the edited copy while '
         '>= 2 copies existed; distinct by hash of the case')
 ASSUMPTIONS = ['the independent walk (lokiverif.irtree.walk over dataclass fields) reaches every expression of the generated subset',
                'edits only write to scopes owned by the edited copy (never to shared real ancestors), so no edit may legitimately reach another copy',
                'symbol-table contents are compared through lokiverif.irdump.dump_type (dtype name, kind, shape, intent, ... as text)',
-               'generator flags for listed known findings are off in the main stream (PRINT statements, derived-type names in ONLY lists of resolved imports); their triggers live in replays/C17']
-SHARDS = {'quick': 12, 'thorough': 16}
-BUDGET = {'quick': 55, 'thorough': 1200}
+               'clone() re-attaching the symbols of its own SOURCE (AttachScopes normal form) is counted as an observation, not judged: '
+               'the statement is about the copy and about later modifications',
+               'the trigger of a listed root cause (known_findings.d/C17.txt) is generated only once its fixed probe '
+               '(lokiverif.unitobs.known_defects) no longer reproduces it on the tree under test; until then it lives in replays/C17 '
+               'and the avoided draws are counted under excluded_by_construction']
+SHARDS = {'quick': 16, 'thorough': 16}
+BUDGET = {'quick': 50, 'thorough': 1200}
 
 _FLAGS = None
 
@@ -215,8 +222,8 @@ def apply_edit(op, copy, inv, defs, foreign_typedef_links=frozenset(), allow_kno
 
     if kind == 'subst':
         sname, section = _section_of(unit)
-        if section is None:
-            raise Noop()
+        if section is None or sname != 'body':
+            raise Noop()    # substituting inside declarations would declare literals / foreign names: not a sane edit
         occ = sorted(FindVariables(unique=True).visit(section), key=lambda x: (str(x).lower(), type(x).__name__))
         if not occ:
             raise Noop()
@@ -440,7 +447,7 @@ def check_clone(ctx, case, src_inv, src_snap, clone, clone_inv, clone_snap, vari
                 ctx.fail(f'C17:clone:lost-scope:{where}', case,
                          f'{str(s)!r} in {where} is scoped inside the source ({a}) but unscoped in the clone')
             ta, tb = _loose(src_snap['types'][i]), _loose(clone_snap['types'][i])
-            if ta != tb and not typed and ta is not None and not str(ta.get('dtype')).endswith(':deferred'):
+            if ta != tb and not typed and isinstance(ta, dict) and not str(ta.get('dtype')).endswith(':deferred'):
                 typed = True
                 ctx.fail(f'C17:clone:type-differs:{where}', case,
                          f'{str(s)!r} in {where}: type in source {ta} but resolved through the clone {tb}')
@@ -516,7 +523,11 @@ def check_case(case, ctx):
             try:
                 new = src.clone(**kwargs)
             except Exception as e:  # noqa
-                ctx.fail(f'C17:clone-raises:{exc_bucket(e)}', case, f'clone({kwargs}) of copy {si} raised {e!r}')
+                if dirty[si]:
+                    # an edited copy can be in a state that no caller would clone (cleared symbol table, removed declarations)
+                    ctx.reject(e, {'op': op, 'clone-of-edited-copy': True, 'target': case['target']})
+                else:
+                    ctx.fail(f'C17:clone-raises:{exc_bucket(e)}', case, f'clone({kwargs}) of copy {si} raised {e!r}')
                 break
             copies.append(new)
             dirty.append(dirty[si])
@@ -591,6 +602,12 @@ def check_case(case, ctx):
 
 
 def run_shard(ctx):
+    import time
+    import loki  # noqa: F401  (imported before the clock starts)
+    from loki.transformations.utilities import rename_variables  # noqa: F401
+    flags()
+    # the budget is exploration time: under load importing loki and the probes alone can take most of a minute
+    ctx.t0 = time.time()
     for k, v in sorted(U.known_defects().items()):
         ctx.extra[f'listed_root_cause_present:{k}'] = int(v) if ctx.shard == 0 else 0
     total = ctx.scale(720, 12000)
